@@ -7,11 +7,17 @@ namespace CryoCat.C02
 
 abbrev Word := List Char
 
-/-- `str.isspace()` for the characters that can occur inside one line (the text is split at `\n`
-first): blank, tab, CR, VT, FF, the separators U+001C–U+001F, NEL, NBSP. -/
-def isWs (c : Char) : Bool :=
-  c == ' ' || c == '\t' || c == '\r' || c == '\x0b' || c == '\x0c' ||
-  c == '\x1c' || c == '\x1d' || c == '\x1e' || c == '\x1f' || c == '\u0085' || c == '\u00a0'
+/-- the code points Python's `str.isspace()` accepts (bidirectional class WS/B/S or category Zs), as
+closed ranges, *without* the line feed U+000A (the text is split at `\n` before the character loop):
+TAB, VT, FF, CR, U+001C–U+001F, blank, NEL U+0085, NBSP U+00A0, U+1680, U+2000–U+200A, U+2028, U+2029,
+U+202F, U+205F, U+3000. The harness compares this set with `str.isspace` over ALL code points on
+every run (driver op `ws`). -/
+def wsRanges : List (Nat × Nat) :=
+  [(0x09, 0x09), (0x0B, 0x0D), (0x1C, 0x20), (0x85, 0x85), (0xA0, 0xA0), (0x1680, 0x1680), (0x2000, 0x200A),
+   (0x2028, 0x2029), (0x202F, 0x202F), (0x205F, 0x205F), (0x3000, 0x3000)]
+
+/-- `str.isspace()` for the characters that can occur inside one line -/
+def isWs (c : Char) : Bool := wsRanges.any (fun r => decide (r.1 ≤ c.toNat) && decide (c.toNat ≤ r.2))
 
 def hash : Char := Gen.C02.commentChar
 def nl : Char := Gen.C02.lineSep
@@ -224,6 +230,10 @@ def isInfTok (w : Word) : Bool := isInfBody (dropSign w)
 infinity (`nan` is *not* among them: `to_numeric` raises on it and the column stays text) -/
 def isNumTok (w : Word) : Bool := isDecTok w || isInfTok w
 
+/-- the tokens `pandas.to_numeric` reads as integers (`[+-]?d+`; a column of such tokens comes back
+with an integer dtype, any other numeric column as float64) -/
+def isIntTok (w : Word) : Bool := allDigits (dropSign w)
+
 def column (rows : List (List Word)) (j : Nat) : List Word := rows.map (fun r => r.getD j [])
 
 /-- a column is numeric iff every cell is a number (and there is at least one row) -/
@@ -232,6 +242,9 @@ def colNumeric (isNum : Word → Bool) (rows : List (List Word)) (j : Nat) : Boo
 
 def blockKinds (isNum : Word → Bool) (b : Block) : List Bool :=
   (List.range b.cols.length).map (colNumeric isNum b.rows)
+
+/-- per column: every cell an integer token (with `blockKinds`: integer / float / text column) -/
+def blockInts (b : Block) : List Bool := (List.range b.cols.length).map (colNumeric isIntTok b.rows)
 
 /-! ### writer -/
 
